@@ -171,8 +171,11 @@ class ModelGen:
             return {"k": "str", "id": nm}
         return {"k": "var", "id": nm, "b": list(bnd)}
     def fresh(self):
+        # explicit compound ids of varied case so that, in id order, sub-propositions interleave with the
+        # lower-case leaves (generated ids "VAR..." and upper-case ids always sort before them)
         self.cnt += 1
-        return f"{self.prefix}N{self.cnt}" if self.rng.random() < self.explicit else None
+        stem = self.rng.choice(["N", "N", "b", "k", "zz", "Q", "e"])
+        return f"{self.prefix}{stem}{self.cnt}" if self.rng.random() < self.explicit else None
     def finish(self, r):
         """optionally pre-fix an explicitly named compound by constant own bounds"""
         if self.constvar and r.get("id") is not None and r["k"] != "Not" and self.rng.random() < self.constvar:
